@@ -100,6 +100,7 @@ def parse_vspec(path):
                     raise SystemExit("%s:%d: bad @@item" % (path, ln))
                 cur_item = ItemSpec(m.group(1), m.group(2), m.group(3), m.group(4), int(m.group(5) or 0), ln)
                 cur_item.vspec = path
+                cur_item.props = list(unit.get("default_props", []))
                 unit["parts"].append(("item", cur_item))
             elif key in ("sig", "attr", "body_start", "body_end"):
                 cur_block = Block(key, None, ln)
@@ -118,7 +119,9 @@ def parse_vspec(path):
             elif key == "external_body":
                 cur_item.external_body = True
             elif key == "props":
-                cur_item.props = rest.split()
+                cur_item.props = sorted(set(cur_item.props) | set(rest.split()))
+            elif key == "default_props":
+                unit["default_props"] = rest.split()
             elif key == "end":
                 cur_block = None
             else:
